@@ -37,7 +37,7 @@ func genAztecPayload(t *rapid.T, target int) []byte {
 		}
 	}
 	for s := 0; s < nseg; s++ {
-		switch rapid.IntRange(0, 13).Draw(t, "seg") {
+		switch rapid.IntRange(0, 14).Draw(t, "seg") {
 		case 0:
 			rnd("ABCDEFGHIJKLMNOPQRSTUVWXYZ ", rapid.IntRange(1, 10).Draw(t, "n"), "u")
 		case 1:
@@ -111,6 +111,8 @@ func genAztecPayload(t *rapid.T, target int) []byte {
 					}
 				}
 			}
+		case 13:
+			out = append(out, latin1Text(t, 12)...)
 		default:
 			rnd("ABCabc012 .,:\r\n!\x01\x80", rapid.IntRange(1, 14).Draw(t, "n"), "mix")
 		}
